@@ -846,6 +846,9 @@ func (f *Frame) convertTo(st *State, v *Term, from, to types.Type) *Term {
 	if from == nil || to == nil {
 		return v
 	}
+	if b, ok := types.Unalias(from).(*types.Basic); ok && b.Kind() == types.UntypedNil {
+		return c.zero(to)
+	}
 	ts := c.sortOf(to)
 	if _, isTP := types.Unalias(to).(*types.TypeParam); isTP {
 		return v
